@@ -15,7 +15,10 @@ from vp.harness import schedprog as P
 PROPERTY = "C06"
 FUNCTIONS = L.FUNCTIONS + ["redun.scheduler.Scheduler._check_pending_job", "Scheduler._get_cache", "Scheduler._finalize_job",
                            "Scheduler._evaluate_apply (_pending_expr)", "redun.backends.db.RedunBackendDb.check_cache (CSE branch)"]
-ASSUMPTIONS = L.ASSUMPTIONS + ["jobs without provenance (prov=False) are not part of the templates"]
+ASSUMPTIONS = L.ASSUMPTIONS + ["jobs without provenance (prov=False) are not part of the templates",
+                                "c06_reuse: a second template on the stock scheduler and executors (vp/harness/reuse.py): one call used "
+                                "in a catch and reached again later as the same expression or as an equal call; task kinds plain / "
+                                "cache_scope NONE / async def"]
 install = L.install
 B = L.BRANCH
 
@@ -76,7 +79,25 @@ _Q = [(3, f, 0, 0, 0, 0, L.NQ, None, c) for f in (0, 1, 2) for c in (1, 0)] + [
 _T = [(3, f, 0, form, m, 0, len(B), None, c) for f in range(len(B)) for form in (0, 1) for m in (0, 1) for c in (1, 0)] + [
     (3, 0, e, 0, 0, 0, 4, HOGDUP, c) for e in (0, 1, 2) for c in (0, 1)] + [(3, 0, e, 0, 0, 0, 4, SHARED, c) for e in (0, 1, 2) for c in (0, 1)] + [
     (4, 0, e, 0, 1, 0, 4, L.DUP4, 1) for e in (0, 1)]
+def c06_reuse(k: int) -> bool:
+    """
+    post: _
+    """
+    def body():
+        from vp.harness import reuse as R
+        kind_i = SL()
+        second_i = choose(len(R.SECOND), "second_use")
+        form_i = choose(len(R.FORMS), "form")
+        return native(lambda: R.run_case(kind_i, second_i, form_i)[0])
+    return guard(body, k=k)
+
+
 CONDITIONS = [
+    Condition(c06_reuse, slices=list(range(6)), timeout=200,
+              bounds="slice = kind of the called task (plain / cache_scope NONE / async def, failing or not); the call is used in "
+                     "catch(ok(x), ...) and reached a second time - as the same expression object or as a fresh equal call - in a "
+                     "solver-chosen later position (cond branch caught / uncaught, second element of seq, a follow-up task, the same "
+                     "sweep); stock scheduler and executors; the body must run once, one job per expression, both uses see that outcome"),
     Condition(c06_once, slices=_Q, thorough_slices=_T, timeout=200, thorough_timeout=2400,
               bounds=L.CONDITIONS[0].bounds + "; last slice field: backend cache enabled (1) or run(cache=False) (0); early mode 2 = "
                      "completions may also arrive while an event is being processed"),
@@ -84,6 +105,11 @@ CONDITIONS = [
 
 
 def replay(cond, args, extra):
+    if cond == "c06_reuse":
+        from vp.harness import reuse as R
+        ch = [c[1] for c in extra["choices"]]
+        ok, detail = R.run_case(extra["slice"], ch[0], ch[1])
+        return (not ok), detail, None
     sl = list(extra["slice"])
     use_cache = sl.pop()
     extra2 = dict(extra, slice=sl)
